@@ -1976,6 +1976,10 @@ func RunFrame(frame *py.Frame) (res py.Object, err error) {
 	if debugging {
 		debugf("EXIT with %v\n", vm.why)
 	}
+	// The frame has finished (returned or raised, not yielded): a
+	// generator must not resume it.  RETURN_VALUE clears Yielded, but a
+	// return completed by END_FINALLY or an escaping exception did not.
+	frame.Yielded = false
 	if vm.why != whyReturn {
 		vm.retval = nil
 	}
